@@ -44,6 +44,7 @@ EXPLANATION = (
     "(L7) from_toml passes the configured capacity / refill_rate / retry_after through unchanged (abstract evaluation with the key set to 0) and get_rate_limit_config passes the like-named fields. "
     "(L8) With rate limiting enabled a RateLimiter is installed on every path of start_server. "
     "(L9) = C04.M1: a refused request is never dispatched."
+    " (L11) carrier rule on rate_limit_*. (L12) RateLimitConfig defines no __len__/__bool__. (L13) = C04.M3: the bucket key is the transport's own peer address (the leaf must be self.peer_name[0] itself)."
 )
 
 MW = "server.middleware"
@@ -467,5 +468,15 @@ def run(chk: Check) -> None:
     reuse(chk, rule_m1c, "L10", "an installed limiter is consulted even while it tracks nothing: the chain object is never falsy, or its presence is tested with `is not None` (= C04.M1c)", ("M1c",))
 
     reuse(chk, rule_m1, "L9", "a handler is dispatched only after the chain's truthy verdict in its own callback, or with no chain configured: a request answered 44 is not served (= C04.M1)", ("M1",))
+    from .common import config_fields_carrier, config_presence_tests
+
+    config_fields_carrier(chk, "L11", ("rate_limit_", "enable_rate_limiting"), "capacity / refill rate / retry hint", "more requests are admitted in a burst than the configured capacity allows")
+    config_presence_tests(chk, "L12", ("RateLimitConfig",))
+    # L13: the bucket key is the transport's own peer address, unaltered (= C04.M3)
+    from ..machine import server_machine
+    from .c04 import rule_m3
+    from .common import reuse as _reuse13
+
+    _reuse13(chk, rule_m3, "L13", "buckets are keyed by the address the chain is consulted with, which is the transport's own peer address, unaltered (= C04.M3): two addresses never share a bucket because of a rewrite in the protocol", ("M3",), server_machine(chk.proj))
     chk.trusted = ["CPython ast parser", "engine CFG / abstract evaluator", "asyncio runs coroutines without preemption between awaits"]
     chk.assumptions = ["the inequality admitted <= capacity + refill_rate x T and float rounding are not decided"]
